@@ -6,8 +6,8 @@ CHECKS = {
         "level": "other",
         "quick_fs": ["default"],
         "thorough_fs": ["default", "checks", "no_copy_impls", "both"],
-        "technique": "MIR decision-tree extraction of match arms (private helpers walked in context) + def-use resolution of call arguments; canonical code-class table; sibling cross-check; whole-domain abstract interpretation for length expressions that are not calls of a known length function; function-pointer constructors: abstract interpretation of the selection function on every variant and parameter value (match arms, range patterns or lookup tables alike), then classification of the selected closure",
-        "claim": "Exhaustive over the finite arm space of all 10 dispatch tables (3x Codes, 3x ConstCode, 4x function-pointer constructors incl. the factory: 12+51+59 keys each) and 15 forwarding wrappers: every arm performs exactly one stream operation, of the canonical code class its key names, on the dispatcher's own stream/value arguments, and returns that operation's result; read/write/len siblings agree per key; key sets agree. A length arm written as a formula instead of a call (e.g. a closed form for VByte) is compared with the class's length function on every 64-bit value by the value-partition interpreter. Decides which code is performed, not that the code's own method is right (C03/C04).",
+        "technique": "MIR decision-tree extraction of match arms (private helpers walked in context) + def-use resolution of call arguments; canonical code-class table; sibling cross-check; whole-domain abstract interpretation for length expressions that are not calls of a known length function; function-pointer constructors: abstract interpretation of the selection function on every variant and parameter value (match arms, range patterns or lookup tables alike), then classification of the selected closure; Codes and ConstCode: abstract interpretation of read / write / len with every code operation stubbed (records family, parameter, value and stream arguments), on every variant x parameter cell and every identifier value",
+        "claim": "Exhaustive over the finite arm space of all 10 dispatch tables (3x Codes, 3x ConstCode, 4x function-pointer constructors incl. the factory: 12+51+59 keys each) and 15 forwarding wrappers: every arm performs exactly one stream operation, of the canonical code class its key names, on the dispatcher's own stream/value arguments, and returns that operation's result; read/write/len siblings agree per key; key sets agree. A length arm written as a formula instead of a call (e.g. a closed form for VByte) is compared with the class's length function on every 64-bit value by the value-partition interpreter. Decides which code is performed, not that the code's own method is right (C03/C04). The three tables of `Codes` and of `ConstCode` are derived by interpreting the methods (match arms, `if` chains, range patterns with arithmetic on the identifier alike): exactly one code operation per cell, of the class the key names, on the dispatcher's own stream and value, its result returned unchanged; unsupported identifiers panic.",
         "note": "Trusted: rustc MIR construction, the exporter, the callee->family table and the canonical identities of DESIGN.md appendix A (zeta1=pi0=expgolomb0=gamma, rice0=golomb1=unary, golomb(2^j)=rice(j)).",
         "explanation": "Exhaustive structural check of every dispatch table in the exported MIR: each match arm / "
                        "identifier / associated fn constant is resolved to the single stream-consuming call it makes and "
@@ -21,10 +21,10 @@ CHECKS["C16"] = {
     "level": "other",
     "quick_fs": ["default"],
     "thorough_fs": ["default", "both"],
-    "technique": "MIR decision trees of Display/FromStr with helpers walked in context; decoded format templates; abstract interpretation of to_code_const / from_code_const / PartialEq::eq over every variant, parameter cell and identifier value (relational split of parameter comparisons); canonical code-class table",
-    "claim": "Exhaustive over the finite tables: for each of the 11 variants the text Display prints (literal, or Name({field}) decoded from the compiled format template) reaches a FromStr arm that constructs the same variant with the parsed number in the same field; unknown names fall through to Err and every Option/Result on the parameter path is branched on (by `?` or a match) with its failure leading to Err, never defaulted; to_code_const and from_code_const, interpreted as functions on every (variant, parameter) and every identifier value (so range patterns, arithmetic on the identifier or enumerated arms are all the same to the rule), map between codes and identifiers of one canonical class, are mutually inverse on 0..=50, and yield an error everywhere else; every pair PartialEq declares equal lies in one canonical class and every variant equals itself. Numeric parsing itself is std's. PartialEq::eq is interpreted on every pair of (variant, parameter cell) - the constants the code mentions as singletons, the gaps between them as cells, a pair of values from one gap split into equal / different - so the verdict does not depend on how the arms are written.",
+    "technique": "abstract interpretation of Display::fmt and FromStr::from_str over an abstract string domain (characters, the decimal digits of the symbolic parameter, arbitrary unknown runs; sa/strdom.py); abstract interpretation of to_code_const / from_code_const / PartialEq::eq over every variant, parameter cell and identifier value (relational split of parameter comparisons); canonical code-class table; MIR decision-tree rules as the fallback",
+    "claim": "For each of the 11 variants, Display is interpreted with the parameter as a symbolic value ranging over the whole type: the text written (name, or name + '(' + decimal digits + ')') is then fed to from_str, interpreted on that abstract string, which yields the same variant with the same symbolic parameter - so the round trip holds for every parameter value, whatever std string functions the parser uses (split, split_once, find and slicing, strip_prefix/suffix, comparisons, parse) and however Display assembles the text. No two variants print the same text. from_str, interpreted on malformed texts - an arbitrary unknown name with and without a parameter, the empty text, every parametrised name without a parameter / with an empty, a non-numeric and a negative one, every parameterless name given a parameter - returns an error, never a code. to_code_const and from_code_const, interpreted as functions on every (variant, parameter) and every identifier value, map between codes and identifiers of one canonical class, are mutually inverse on 0..=50 and yield an error everywhere else; PartialEq::eq, interpreted on every pair of (variant, parameter cell), declares equal only codes of one canonical class and every code equal to itself. Numeric parsing and formatting themselves are std's.",
     "note": "Trusted: rustc MIR construction and format_args lowering (byte template), the exporter, the canonical identities of DESIGN.md appendix A.2, std's str::split/parse contracts.",
-    "explanation": "Structural, exhaustive over match arms: Display arms are decoded from the compiled format templates and matched against the decision tree of FromStr (string literal comparisons and the parse path); identifier conversions and PartialEq are checked arm by arm against the canonical code classes.",
+    "explanation": "Display/FromStr interpreted over an abstract string domain; identifier conversions and PartialEq interpreted over all variants, parameters and identifiers.",
 }
 
 CHECKS["C05"] = {
@@ -54,10 +54,10 @@ CHECKS["C15"] = {
     "level": "other",
     "quick_fs": ["default"],
     "thorough_fs": ["default", "both"],
-    "technique": "MIR path rules over update/add/best_code/wrapper bodies with def-use terms: field coverage against the ADT, field<->len-function<->parameter-offset agreement, min-scan shape (running pair identified from the returned value, helpers walked in context), element-wise merge idioms (zip / enumerate / index loop with the array's own bound), Mutex-guarded single update",
-    "claim": "Shape of exactness, mergeability and thread safety: against the ADT's field list, Default zeroes, update_many accumulates len_F(n, index+off_F)*count into, add merges same-field-to-same-field, and best_code scans every field; the per-family parameter offset used when accumulating equals the one used when reporting the best code; best_code is a strict-minimum scan that replaces cost and code together and returns (code, cost); AddAssign/Add/Sum reduce to add; the wrapper performs exactly one update(v) per successful read/write (v = value read / value written), none on error, through Mutex::lock on the only field holding the statistics. Interleavings are discharged by Rust's aliasing rules plus this shape (commutative additions under one lock), not explored. Exactness of len_* itself is C06.",
+    "technique": "abstract interpretation of update_many / update / best_code / add / += / + / sum / Default with the length functions replaced by tokens (uninterpreted functions recording family and parameter) on statistics with 4/5/3/4/3 array slots; MIR path rule for the wrapper's locking discipline; structural rules as the fallback when the interpreter refuses the code",
+    "claim": "Decided by interpreting the methods themselves, so loops, iterator adaptors, macros and helpers are all the same: Default zeroes every slot; update_many(n, count) adds count to total, (n+1)*count to unary and len_F(n, p)*count to every other slot, where F is a length function of the slot's family applied to n, and (F, p) is exactly the code best_code reports when that slot holds the unique minimum (so totals are kept for the code they are reported for); update(n) = update_many(n, 1) and returns n; best_code returns the slot's code and the minimum for every slot in turn; add, +=, + and sum (of three, of none) give slot-wise sums and leave the right-hand side alone. The wrapper updates exactly once per successful read/write, with the value read / written, through Mutex::lock, after the operation and never on its error path. Exactness of the length functions themselves is C06; thread-safety rests on Mutex (std).",
     "note": "Trusted: rustc MIR, exporter, field table of DESIGN.md appendix A.3, std Mutex contract.",
-    "explanation": "Structural: every field of the ADT is matched against the accumulate / merge / scan code on all paths (loops entered once).",
+    "explanation": "Methods of CodesStats interpreted with length functions as tokens against the slot-wise model; locking discipline structural.",
 }
 
 CHECKS["C11"] = {
